@@ -48,31 +48,39 @@ pub static VERBOSE: AtomicBool = AtomicBool::new(false);
 /// workers, the calling thread) is counted and its location recorded. Nothing is printed unless
 /// `VERBOSE` is set, the default hook is not called.
 pub fn install_hook() {
-    HOOK.call_once(|| {
-        std::panic::set_hook(Box::new(|info| {
-            let (file, line) = match info.location() {
-                Some(l) => (l.file().to_string(), l.line()),
-                None => ("?".to_string(), 0),
-            };
-            let msg = if let Some(s) = info.payload().downcast_ref::<&str>() {
-                s.to_string()
-            } else if let Some(s) = info.payload().downcast_ref::<String>() {
-                s.clone()
-            } else {
-                "non-string panic payload".to_string()
-            };
-            let thread = std::thread::current().name().unwrap_or("unnamed").to_string();
-            if VERBOSE.load(Ordering::Relaxed) {
-                eprintln!("[c14 hook] panic on thread '{}' at {}:{}: {}", thread, file, line, msg);
+    HOOK.call_once(set_the_hook);
+}
+
+/// replaces whatever hook is installed (libFuzzer installs its own after start-up)
+pub fn install_hook_force() {
+    HOOK.call_once(|| {});
+    set_the_hook();
+}
+
+fn set_the_hook() {
+    std::panic::set_hook(Box::new(|info| {
+        let (file, line) = match info.location() {
+            Some(l) => (l.file().to_string(), l.line()),
+            None => ("?".to_string(), 0),
+        };
+        let msg = if let Some(s) = info.payload().downcast_ref::<&str>() {
+            s.to_string()
+        } else if let Some(s) = info.payload().downcast_ref::<String>() {
+            s.clone()
+        } else {
+            "non-string panic payload".to_string()
+        };
+        let thread = std::thread::current().name().unwrap_or("unnamed").to_string();
+        if VERBOSE.load(Ordering::Relaxed) {
+            eprintln!("[c14 hook] panic on thread '{}' at {}:{}: {}", thread, file, line, msg);
+        }
+        PANIC_COUNT.fetch_add(1, Ordering::SeqCst);
+        if let Ok(mut p) = PANICS.lock() {
+            if p.len() < 10_000 {
+                p.push(PanicRec { thread, file, line, msg });
             }
-            PANIC_COUNT.fetch_add(1, Ordering::SeqCst);
-            if let Ok(mut p) = PANICS.lock() {
-                if p.len() < 10_000 {
-                    p.push(PanicRec { thread, file, line, msg });
-                }
-            }
-        }));
-    });
+        }
+    }));
 }
 
 pub fn panic_count() -> u64 {
@@ -242,6 +250,7 @@ pub fn is_data_error(msg: &str) -> bool {
     m.starts_with("fts5:") || m.contains("fts5: syntax error") || m.contains("unterminated string") && m.contains("fts5")
         || m.contains("no such column") && m.contains("fts5")
         || m.contains("unknown special query")
+        || m == "unterminated string"
 }
 
 pub const SQL_KEYWORDS: &[&str] = &[
@@ -405,6 +414,15 @@ pub fn classify_sql(kind: &str, msg: &str, facts: &SqlFacts) -> String {
     if near.as_deref() == Some("OFFSET") {
         return "sql:skip-without-first".to_string();
     }
+    if msg.contains("JSON cannot hold BLOB values") {
+        return "sql:aggregate-on-binary-system-field".to_string();
+    }
+    if let Some(i) = msg.find("no such column: ") {
+        let col = msg[i + 16..].trim();
+        if facts.alias_candidates.iter().any(|a| a == col) {
+            return "sql:filter-on-system-reference-field".to_string();
+        }
+    }
     if msg.contains("no such column: sys_peer") || msg.contains("no such column: sys_room") {
         return "sql:filter-on-system-reference-field".to_string();
     }
@@ -433,7 +451,7 @@ pub fn classify_sql(kind: &str, msg: &str, facts: &SqlFacts) -> String {
             && facts
                 .alias_candidates
                 .iter()
-                .any(|a| a.chars().next().map(|c| c.is_ascii_digit()).unwrap_or(false) && a.starts_with(tok.as_str()))
+                .any(|a| a.chars().next().map(|c| c.is_ascii_digit()).unwrap_or(false) && (a.starts_with(tok.as_str()) || tok.starts_with(a.as_str())))
         {
             return "sql:digit-first-identifier-as-table-alias".to_string();
         }
@@ -446,6 +464,9 @@ pub fn classify_sql(kind: &str, msg: &str, facts: &SqlFacts) -> String {
     }
     if msg.contains("no such column: inf") || msg.contains("no such column: NaN") || msg.contains("no such column: -inf") {
         return "sql:non-finite-float-literal".to_string();
+    }
+    if msg.contains("syntax error") && facts.alias_candidates.iter().any(|a| is_sql_keyword(a)) && !facts.json_default_selected {
+        return "sql:reserved-word-as-table-alias".to_string();
     }
     if near.is_some() && facts.json_default_selected {
         return "sql:json-field-default-missing-paren".to_string();
@@ -990,4 +1011,209 @@ pub fn signing_key(name: &str) -> Ed25519SigningKey {
 
 pub fn verifying_key_of(k: &Ed25519SigningKey) -> Vec<u8> {
     k.export_verifying_key()
+}
+
+// ---------------------------------------------------------------------------------------------
+// the two coverage guided targets (the libFuzzer binaries of /verif/fuzz call these functions;
+// the check replays crash artifacts through them without needing the fuzz build)
+// ---------------------------------------------------------------------------------------------
+
+#[derive(Clone, Debug)]
+pub struct Finding {
+    pub signature: String,
+    pub detail: String,
+}
+
+#[derive(Clone, Debug, Default)]
+pub struct FuzzStats {
+    pub texts: u64,
+    pub passed_grammar: u64,
+    pub executed: u64,
+    pub decoded: u64,
+}
+
+pub const FUZZ_DEFAULT_MODEL: &str = "{ Person { name: String, surname: String nullable, age: Integer nullable, weight: Float nullable, is_human: Boolean default true, data: Json nullable, bin: Base64 nullable, parents: [Person], pet: Pet nullable } Pet { name: String default \"rex\", age: Integer nullable } }";
+
+fn drain_panics(stage: &str, detail: &str, out: &mut Vec<Finding>) -> usize {
+    let ps = take_panics();
+    let n = ps.len();
+    for p in ps {
+        out.push(Finding {
+            signature: panic_signature(&p, stage),
+            detail: format!("{}:{} {} [{}]", p.file, p.line, p.msg, detail),
+        });
+    }
+    n
+}
+
+fn lossy(b: &[u8]) -> String {
+    String::from_utf8_lossy(b).into_owned()
+}
+
+fn strip_lead(s: &str) -> &str {
+    let mut t = s.trim_start();
+    while t.starts_with("//") {
+        match t.find('\n') {
+            Some(i) => t = t[i + 1..].trim_start(),
+            None => return "",
+        }
+    }
+    t
+}
+
+/// target `parse_texts`: sections separated by NUL bytes. The first section is a data model
+/// (the default model is used when it is refused), the following ones are requests (dispatched
+/// on their first word), a section that is a JSON object gives the parameters of the next
+/// requests (otherwise every variable gets a plausible value).
+pub fn fuzz_parse_texts(data: &[u8]) -> (Vec<Finding>, FuzzStats) {
+    install_hook();
+    let _ = take_panics();
+    let mut out = Vec::new();
+    let mut stats = FuzzStats::default();
+    let mut sections = data.split(|b| *b == 0).take(9);
+    let model_text = lossy(sections.next().unwrap_or(b""));
+    stats.texts += 1;
+    // the model text alone, then a world built from it
+    let pm = parse_model_text(&model_text);
+    if pm.passed_grammar {
+        stats.passed_grammar += 1;
+    }
+    drain_panics("parse.model", &model_text.chars().take(300).collect::<String>(), &mut out);
+    let mut world = if pm.accepted {
+        match MemWorld::new(&model_text, true) {
+            Ok(w) => Some(w),
+            Err(o) => {
+                if let Verdict::SqlErr(m) = &o.verdict {
+                    out.push(Finding {
+                        signature: classify_sql("model", m, &facts_from_text(&model_text, "")),
+                        detail: format!("{} | model: {}", m, model_text.chars().take(600).collect::<String>()),
+                    });
+                }
+                None
+            }
+        }
+    } else {
+        None
+    };
+    drain_panics("parse.model", "model setup", &mut out);
+    if world.is_none() {
+        world = MemWorld::new(FUZZ_DEFAULT_MODEL, true).ok();
+    }
+    let mut world = match world {
+        Some(w) => w,
+        None => return (out, stats),
+    };
+    let mut fixed_params: Option<Vec<(String, PVal)>> = None;
+    let mut k = 0u64;
+    for sec in sections {
+        let text = lossy(sec);
+        let lead = strip_lead(&text);
+        if lead.starts_with("{\"") || lead == "{}" {
+            stats.texts += 1;
+            let p = parse_params_json(&text);
+            drain_panics("parse.params", &text.chars().take(300).collect::<String>(), &mut out);
+            if p.accepted {
+                let mut v = Vec::new();
+                if let Ok(serde_json::Value::Object(m)) = serde_json::from_str::<serde_json::Value>(&text) {
+                    for (k, val) in m {
+                        let pv = match val {
+                            serde_json::Value::Null => PVal::Null,
+                            serde_json::Value::Bool(b) => PVal::Bool(b),
+                            serde_json::Value::Number(n) => match n.as_i64() {
+                                Some(i) => PVal::Int(i),
+                                None => PVal::Float(n.as_f64().unwrap_or(0.0)),
+                            },
+                            serde_json::Value::String(s) => PVal::Str(s),
+                            _ => continue,
+                        };
+                        v.push((k, pv));
+                    }
+                }
+                fixed_params = Some(v);
+            }
+            continue;
+        }
+        let kinds: &[char] = if lead.starts_with("query") {
+            &['q']
+        } else if lead.starts_with("mutate") {
+            &['m']
+        } else if lead.starts_with("delete") {
+            &['d']
+        } else {
+            &['q', 'm', 'd']
+        };
+        for kind in kinds {
+            stats.texts += 1;
+            let salt = text.bytes().fold(0u8, |a, b| a.wrapping_mul(31).wrapping_add(b));
+            let params: Vec<(String, PVal)> = match &fixed_params {
+                Some(p) => p.clone(),
+                None => world
+                    .request_variables(*kind, &text)
+                    .unwrap_or_default()
+                    .iter()
+                    .enumerate()
+                    .map(|(i, (n, ty, nullable))| (n.clone(), plausible_value(ty, *nullable, salt.wrapping_add((i * 37) as u8))))
+                    .collect(),
+            };
+            let (stage, o) = match kind {
+                'q' => ("mem.query", world.query(&text, &params)),
+                'm' => ("mem.mutate", world.mutate(&text, &params)),
+                _ => ("mem.delete", world.delete(&text, &params)),
+            };
+            if o.passed_grammar {
+                stats.passed_grammar += 1;
+            }
+            let detail = format!("{} | model: {}", text.chars().take(600).collect::<String>(), world.model_text.chars().take(400).collect::<String>());
+            match &o.verdict {
+                Verdict::Ok => stats.executed += 1,
+                Verdict::SqlErr(m) => {
+                    let facts = facts_from_text(&world.model_text, &text);
+                    out.push(Finding {
+                        signature: classify_sql(stage.trim_start_matches("mem."), m, &facts),
+                        detail: format!("{} | {}", m, detail),
+                    });
+                }
+                _ => {}
+            }
+            let n = drain_panics(stage, &detail, &mut out);
+            if n == 0 && o.passed_grammar {
+                k += 1;
+                if let Err(e) = world.probe(k) {
+                    if drain_panics(stage, &detail, &mut out) == 0 {
+                        out.push(Finding { signature: format!("probe-failed@{}", stage), detail: format!("{} after {}", e, detail) });
+                    }
+                }
+            }
+        }
+    }
+    (out, stats)
+}
+
+/// target `wire_decode`: the first byte selects the wire type, the rest is decoded with bincode
+/// and, when it decodes, checked the way the receiving side checks it
+pub fn fuzz_wire_decode(data: &[u8]) -> (Vec<Finding>, FuzzStats) {
+    install_hook();
+    let _ = take_panics();
+    let mut out = Vec::new();
+    let mut stats = FuzzStats::default();
+    if data.is_empty() {
+        return (out, stats);
+    }
+    let kind = data[0] as usize % wire::KINDS;
+    let (decoded, name, _panicked) = wire::decode_and_check(kind, &data[1..]);
+    stats.texts = 1;
+    if decoded {
+        stats.decoded = 1;
+    }
+    let stage = match kind {
+        0 | 1 | 2 => "wire.decode",
+        3 => "pull",
+        8 => "invite",
+        9 | 14 | 15 | 16 => "pull",
+        17 | 18 | 19 => "wire.decode",
+        _ => "row.verify",
+    };
+    let hex: String = data.iter().take(120).map(|b| format!("{:02x}", b)).collect();
+    drain_panics(stage, &format!("{} from {} bytes: {}", name, data.len(), hex), &mut out);
+    (out, stats)
 }
